@@ -95,6 +95,10 @@ type World struct {
 	servers   []*http.Server
 	parkedReq atomic.Int64 // requests parked at a gate or stalled
 	parkedHk  atomic.Int64 // goroutines parked at a library hook
+
+	// configuration of subscribers created afterwards (NewSub)
+	TrustedStorage bool // the destination link system has TrustedStorage set (no re-hashing on local reads)
+	LibraryHook    bool // the subscriber's block hook delegates to dagsync.MakeGeneralBlockHook
 }
 
 // New creates a world and installs its transport as http.DefaultTransport.
@@ -349,6 +353,34 @@ func (p *Publisher) BuildGenericChain(n int, tag int) []cid.Cid {
 		out = append(out, l.(cidlink.Link).Cid)
 	}
 	return out
+}
+
+// BuildSizedNode stores one generic node whose encoded block is exactly size bytes long (padding in an ASCII
+// string field), optionally linking to child, and returns its CID. size must exceed the unpadded encoding.
+func (p *Publisher) BuildSizedNode(size int, child cid.Cid, tag int) (cid.Cid, bool) {
+	build := func(pad int) (cid.Cid, int) {
+		nd, err := qp.BuildMap(basicnode.Prototype.Map, 3, func(ma datamodel.MapAssembler) {
+			qp.MapEntry(ma, "Bucket", qp.String(fmt.Sprintf("s-%d-%d-", p.Idx, tag)+strings.Repeat("a", pad)))
+			if child != cid.Undef {
+				qp.MapEntry(ma, "Child", qp.Link(cidlink.Link{Cid: child}))
+			}
+		})
+		if err != nil {
+			panic(err)
+		}
+		l, err := p.Lsys.Store(ipld.LinkContext{}, p.LinkProto, nd)
+		if err != nil {
+			panic(err)
+		}
+		c := l.(cidlink.Link).Cid
+		return c, len(p.Body(c))
+	}
+	_, base := build(0)
+	if size < base {
+		return cid.Undef, false
+	}
+	c, n := build(size - base)
+	return c, n == size
 }
 
 // Body returns the honest response body for a block.
